@@ -342,7 +342,7 @@ func (n *Net) actions() []Action {
 				continue
 			}
 			l, d := l, d
-			acts = append(acts, Action{Key: fmt.Sprintf("dlv:%s:%s", l.Name, []string{"cs", "sc"}[d]), Kind: "dlv", Weight: 3, Do: func() { n.deliver(l, d) }})
+			acts = append(acts, Action{Key: fmt.Sprintf("dlv:%s:%s", l.Name, []string{"cs", "sc"}[d]), Kind: "dlv", Weight: 30, Do: func() { n.deliver(l, d) }})
 		}
 	}
 	return acts
